@@ -3,7 +3,8 @@
 Alphabet: specs of the small family x (objective_tolerance, resource_usage_tolerance) in
 {0, .01, .1, .5}^2 minus (0,0) x metric in {E, L, EDP}.  Phase 1 runs the mapper at zero
 tolerance for every (spec, metric) and compares it with the exact optimum of the reference
-mapspace (every LoopTree through the real model, FAM.compute_refs, shared with C01).  Phase
+mapspace (every LoopTree through the real model, FAM.compute_refs, shared with C01; the
+sub-grid specs of the thorough tier use the zero-tolerance run itself as the optimum).  Phase
 2 runs the mapper with every tolerance pair: the best returned objective must satisfy
 opt <= best <= (1 + objective_tolerance) * opt (relative 1e-5), a mapping must be returned
 whenever one exists, and every returned row must pass the structural validator
@@ -93,7 +94,8 @@ def body_zero(cfg):
     # a disagreement here is C01's finding, not C16's: it is recorded, and phase 2 keeps using the reference
     return Result(outcome=(sid, metric, got), nontrivial=bool(ref and ref["n_valid"] < ref["n_trees"]),
                   validated=ref is not None, sample=sample,
-                  outcome_class="zero-tolerance==reference" if agree else "zero-tolerance!=reference")
+                  outcome_class=("no-reference(zero-tolerance-run-is-the-optimum)" if ref is None else
+                                 "zero-tolerance==reference" if agree else "zero-tolerance!=reference"))
 
 
 def body(cfg):
@@ -178,7 +180,9 @@ def run(ctx):
     full, diag = spec_lists(ctx)
     _FULL.update(full)
     tree, sids = make_tree(full, diag)
-    _REFS.update(FAM.compute_refs(ctx, sids, orders="alpha"))
+    # exact optimum from the reference mapspace for the full-grid specs (quick: for all specs, they are C01's quick
+    # specs); the sub-grid specs of the thorough tier use the zero-tolerance run as the exact optimum
+    _REFS.update(FAM.compute_refs(ctx, sids if ctx.quick else full, orders="alpha"))
     ctx.explore("zero-tolerance-vs-reference", lambda p: sids if len(p) == 0 else (METRICS if len(p) == 1 else None),
                 body_zero, shard_depth=2, distinct_by_construction=True)
     ctx.explore("tolerance-grid", tree, body, shard_depth=3, distinct_by_construction=True)
